@@ -198,6 +198,9 @@ func zeroValue(t types.Type) Value {
 		if u.Kind() == types.UntypedNil {
 			return nilRef()
 		}
+		if u.Kind() == types.Invalid {
+			return TS.False // unused tuple component
+		}
 		panic(fmt.Sprintf("zeroValue: unsupported basic %v", t))
 	case *types.Struct:
 		s := &StructV{}
